@@ -358,6 +358,87 @@ def live_priority_cases():
                                    't_remove': t_remove, 't_back': t_back, 'freq': freq}
 
 
+def manager_swap_case(case):
+    """During a request for n steps a system installs a fresh scheduler on its model (and moves itself and its peers
+    over): the request is still worth n single steps - every remaining step advances the scheduler the model holds THEN,
+    and the model-level timestep follows it."""
+    def drive(single):
+        reset_library()
+        model = new_model(seed=1)
+        log = []
+        Rec = make_rec(log)
+        peer = Rec('peer', model, 1, 0, DEFAULT, 1)
+        swapped = []
+
+        class Swapper(Rec):
+            def execute(self):
+                super().execute()
+                if self.model.systems.timestep == case['at'] and not swapped:
+                    swapped.append(True)
+                    new = Core.SystemManager(self.model)
+                    new.timestep = case['new_clock']
+                    self.model.systems = new
+                    if case['carry']:
+                        new.add_system(peer)
+                        new.add_system(self)
+        sw = Swapper('sw', model, 0, 0, DEFAULT, 1)
+        model.systems.add_system(peer)
+        model.systems.add_system(sw)
+        if single:
+            for _ in range(case['n']):
+                model.execute()
+        else:
+            model.execute(case['n'])
+        return (model.timestep, model.systems.timestep, list(log))
+    one, many = drive(True), drive(False)
+    if one != many:
+        raise Violation(f'execute({case["n"]}) is not equivalent to {case["n"]} single steps when a system installs a new '
+                        f'scheduler (clock {case["new_clock"]}) during timestep {case["at"]}', expected=one, observed=many)
+    if one[0] != one[1]:
+        raise Violation('model timestep differs from the timestep of the scheduler the model holds', expected=one[1], observed=one[0])
+    return tuple(map(tuple, one[2]))
+
+
+def manager_swap_cases():
+    for n in (2, 4):
+        for at in range(n):
+            for new_clock in (0, at + 1, 7):
+                for carry in (True, False):
+                    yield {'leg': 'manager_swap', 'n': n, 'at': at, 'new_clock': new_clock, 'carry': carry}
+
+
+def rewind_case(case):
+    """The clock is set back by the user (a replayed / rolled-back stretch): what runs in a timestep depends on the
+    timestep's number and the windows alone, whether or not that number has been seen before."""
+    reset_library()
+    model = new_model(seed=1)
+    log = []
+    Rec = make_rec(log)
+    specs = [('every', 2, 0, DEFAULT, 1), ('sparse', 1, case['start'], DEFAULT, case['freq']), ('window', 0, 1, 3, 1)]
+    for k, p, st, en, fr in specs:
+        model.systems.add_system(Rec(k, model, p, st, en, fr))
+    model.execute(case['first'])
+    del log[:]
+    model.systems.timestep = case['back_to']
+    model.execute(case['again'])
+    exp = []
+    for t in range(case['back_to'], case['back_to'] + case['again']):
+        for k, p, st, en, fr in specs:
+            if active(t, st, en, fr):
+                exp.append((t, k))
+    if log != exp or model.timestep != case['back_to'] + case['again']:
+        raise Violation(f'{case["first"]} steps, clock set back to {case["back_to"]}, {case["again"]} more steps: activations',
+                        expected=exp, observed=list(log))
+    return tuple(log)
+
+
+def rewind_cases():
+    for first in (3, 4, 6):
+        for back_to in range(0, first):
+            for start, freq in ((0, 2), (1, 3), (0, 1)):
+                yield {'leg': 'rewind', 'first': first, 'back_to': back_to, 'again': 3, 'start': start, 'freq': freq}
+
+
 def replaced_cases():
     for ts in (0, 2, 4):
         for sp in (10, 3, 1):             # supervisor ahead of, level with (registered later), behind the retired system
@@ -631,6 +712,19 @@ def run(ctx):
                 ctx.report(case, v)
                 if ctx.full():
                     return
+        for gen, fn, name in ((manager_swap_cases, manager_swap_case, 'manager_swap'), (rewind_cases, rewind_case, 'rewind')):
+            nn = 0
+            for case in gen():
+                ctx.traces += 1
+                nn += 1
+                try:
+                    ctx.outcome(hbfs._guard(fn, case))
+                    ctx.transitions += 6
+                except Violation as v:
+                    ctx.report(case, v)
+                    if ctx.full():
+                        return
+            ctx.leg(name, cases=nn)
         ctx.leg('live_priority', cases=nl, note='priority attribute changed while registered, then removed and registered again')
     if ctx.violations or ctx.small:
         return
@@ -653,6 +747,12 @@ def replay(case):
         return
     if case['leg'] == 'live_priority':
         hbfs._guard(live_priority_case, case)
+        return
+    if case['leg'] == 'manager_swap':
+        hbfs._guard(manager_swap_case, case)
+        return
+    if case['leg'] == 'rewind':
+        hbfs._guard(rewind_case, case)
         return
     if case['leg'] == 'window_sweep':
         hbfs._guard(sweep_case, case)
